@@ -106,7 +106,7 @@ Proof.
     match goal with |- res_sat (if ?b then _ else _) _ => destruct b eqn:Etag end; [exact I|].
     eapply res_sat_bind; [apply (pick_seg m sid s _ Hs)|]. intros dst Hdst.
     cbn. split; [assumption|]. split; [unfold maxSegmentSize; lia|].
-    apply landingPad_range. assumption.
+    apply landingPad_range; [apply pointerType_far; lia|assumption].
   - destruct (pointerType val =? farPointer) eqn:Efar.
     + (* far *)
       eapply res_sat_bind; [apply (pick_seg m sid s _ Hs)|]. intros dst Hdst.
